@@ -214,6 +214,9 @@ func (r *exRun) collect(call *exCall, ch <-chan *bigbuff.ExclusiveOutcome) {
 			call.nilOut = true
 		} else if call.outcomes == 1 {
 			call.res, call.err = o.Result, o.Error
+			// the outcome handed to a caller is that caller's: annotating it (as callers do: wrap the error, replace
+			// the result) must not change what the other callers of the same execution receive
+			o.Result, o.Error = fmt.Sprintf("overwritten by caller %d", call.id), fmt.Errorf("annotated by caller %d", call.id)
 		}
 	}
 	call.retStamp = core.Now()
